@@ -44,6 +44,12 @@ Definition ip_gen (addr p : N) : list N :=
        let nid := net_id addr p in
        rev_append (snd (loop nid (bcast addr p) um)) [].
 
+(* ipGenerator called directly with an IPNet whose IP field still has host bits set (not what
+   net.ParseCIDR produces): the loop masks the address itself, the /31,/32 branch sends the IP
+   field as it is *)
+Definition ip_gen_raw (ip p : N) : list N :=
+  if (31 <=? p) && negb (p <=? 1) then [ip] else ip_gen ip p.
+
 (* computeNetSz: ^uint32(0)>>subnetSz - 1, 1 for >= 31 *)
 Definition compute_net_sz (p : N) : N :=
   if 31 <=? p then 1 else u32 (N.shiftr (N.ones 32) p + two32 - 1).
